@@ -166,3 +166,59 @@ def _pair(x):
     if isinstance(x, list) and len(x) == 2 and x[0] == 'raw':
         return [repr(x[1]), 1]
     return [repr(x), 1]
+
+
+def _canon_value(txt):
+    try:
+        return int(txt)
+    except ValueError:
+        try:
+            return float(txt)
+        except ValueError:
+            return txt
+
+
+def parse_static_rule(rule):
+    """'[57][Formula:[13C2]H4]^2@C,N-Term' -> ([[57, 1], ['Formula:[13C2]H4', 2]], ['C', 'N-Term']) - the harness's own
+    bracket-depth reader of the ProForma global-modification rule"""
+    body, _, targets = rule.rpartition('@')
+    mods = []
+    i = 0
+    while i < len(body):
+        if body[i] != '[':
+            i += 1
+            continue
+        depth, j = 1, i + 1
+        while j < len(body) and depth:
+            depth += body[j] == '['
+            depth -= body[j] == ']'
+            j += 1
+        val = body[i + 1:j - 1]
+        mult = 1
+        if j < len(body) and body[j] == '^':
+            k = j + 1
+            while k < len(body) and (body[k].isdigit() or (k == j + 1 and body[k] in '+-')):
+                k += 1
+            mult = int(body[j + 1:k])
+            j = k
+        mods.append([_canon_value(val), mult])
+        i = j
+    return mods, targets.split(',')
+
+
+def condense_static(m):
+    """the explicit form of the global static rules: every rule's modifications appended to each target residue /
+    terminus, the rules removed (model of condense_static_mods)"""
+    rules = [r[0] for r in m.static]
+    m.static = []
+    for rule in rules:
+        mods, targets = parse_static_rule(rule)
+        for t in targets:
+            if t == 'N-Term':
+                m.nterm.extend(copy.deepcopy(mods))
+            elif t == 'C-Term':
+                m.cterm.extend(copy.deepcopy(mods))
+            else:
+                for r in m.res:
+                    if r[0] == t:
+                        r[1].extend(copy.deepcopy(mods))
